@@ -44,7 +44,7 @@ def run(prop, tier, seed):
     from src.norms import Slobodeckij
     rules, exports = rl.extract()
     data = rl.rules_data_tla(rules, exports)
-    reps = 2 if quick else 10
+    reps = 2 if quick else 80
     recs = []
     worst = {}
 
@@ -140,7 +140,7 @@ def run(prop, tier, seed):
                     add("h12", N, "nearby-consecutive", 0, sx.seminorm_h_1_2(f, a, a + h), sr.h12(c, h), 1e-6 * abs(sr.h12(c, h)), {"interval": [a, a + h]})
     # corner configuration: polynomial data in the embedded coordinates, order 21
     R = Rules(n=20, q=0.3, levels=30)
-    for rep in range(2 if quick else 8):
+    for rep in range(2 if quick else 40):
         # the configurations meshes produce: right angles, neighbouring elements within a factor two
         l0 = 10 ** rng.uniform(-1, 1)
         l1 = l0 * rng.choice([1.0, 0.5, 2.0])
